@@ -261,6 +261,8 @@ OBJECTS: Dict[str, Tuple[Sp, str]] = {
     "ObjC": (OBJC, ""),
     "map(tuple)": (MAPOBJ, ""),
     "TDNest": (TDNEST, ""),
+    "TDSkip": (obj("TDk", F("a", INT), F("d", INT, skip=("deserialization",)), kind="typeddict", total=False), ""),
+    "NTSkip": (obj("NTk", F("a", INT), F("b", INT, default=V("3"), skip=("deserialization",)), kind="namedtuple"), ""),
     "FlatMap": (FLATMAP, ""),
     "Aliased": (ALIASED, ""),
     "Generic": (GEN, GEN_SRC),
@@ -324,8 +326,23 @@ TDA = obj(
     F("u", opt(STR), none_as_undefined=True),
     kind="typeddict",
 )
+TDS = obj(
+    "TDS",
+    F("a", INT),
+    F("b", INT, skip=("serialization",)),
+    F("c", opt(INT), skip=("serialization_if:is_neg",)),
+    kind="typeddict",
+)
+NTS = obj(
+    "NTS",
+    F("a", INT),
+    F("b", INT, default=V("3"), skip=("serialization", "deserialization")),
+    kind="namedtuple",
+)
 SER_OBJECTS: Dict[str, Tuple[Sp, str]] = {
     "TDA": (TDA, ""),
+    "TDS": (TDS, SER_SRC),
+    "NTS": (NTS, ""),
     "enum_struct": (enum("Est", 0, (1, 2), "s"), ""),
     "list(enum_struct)": (lst(enum("Est", 0, (1, 2), "s")), ""),
     "Sm": (SM, ""),
